@@ -2,6 +2,7 @@ package main
 
 import (
 	"math/big"
+	"strings"
 )
 
 // Field-level terms. Sort SF (mod P) / SN (mod N).
@@ -29,7 +30,7 @@ func FConst(v *big.Int, s Sort) *Term {
 var powMode bool
 
 func asPow(t *Term) (*Term, *big.Int) {
-	if t.op == "app" && t.name == "fpow" && t.args[1].IsConst() {
+	if t.op == "app" && strings.HasPrefix(t.name, "fpow_") && t.args[1].IsConst() {
 		return t.args[0], t.args[1].val
 	}
 	return t, bi(1)
@@ -39,7 +40,7 @@ func FPow(b *Term, e *big.Int) *Term {
 	if e.Cmp(bi(1)) == 0 {
 		return b
 	}
-	return App("fpow", b.sort, b, IntC(e))
+	return App("fpow_"+b.sort.Name, b.sort, b, IntC(e))
 }
 
 // FOp builds fadd/fsub/fmul/fneg with constant folding.
